@@ -258,7 +258,10 @@ def run (inp obs : List String) : Verdict :=
             | some s' => ("save:ok", reportOf s'.layers)
             | none => ("save:ok", "load-failed")
         let finAgree := mSave == saveTok && (saveTok ≠ "save:ok" || (loadTok == "load:ok" && mRep == repTok))
-        let feats := (if usedEntry && unsynced then ["entry-unsynced"] else [])
+        -- the recorded `entry` findings are exactly the failures the MODEL predicts from the indices being out of
+        -- step; a failure the model does not predict (another save class, another report) is not one of them
+        let predicted := mSave == saveTok && (saveTok ≠ "save:ok" || mRep == repTok)
+        let feats := (if usedEntry && unsynced && predicted then ["entry-unsynced"] else [])
         let finSpec :=
           if saveTok = "save:ok" && loadTok = "load:ok" && repTok = expected then []
           else
